@@ -29,28 +29,40 @@ Definition crypto_observed (cr : cres) : Prop := cr <> CNotCalled.
 (* ------------------------------------------------------------------ the sites each operation may reach *)
 Definition PS := "services/server/policy.py:".
 Definition ES := "services/server/engine.py:".
+(* a site is listed only while the code still has the defect (gen/PieClasses.defect_present / policy_unknown) *)
+Definition active (n site : string) : list string := if defect n then [site] else [].
+Definition pol (f : string) : list string :=
+  match assoc_s f policy_unknown with Some (Some s) => [s] | _ => [] end.
+Definition register_convert_sites : list string :=
+  ["pie/factory.py:_build_pie_key:TypeError"; "pie/objects.py:validate:ValueError";
+   "pie/factory.py:_build_cryptographic_parameters:AttributeError(block_cipher_mode)";
+   "pie/factory.py:_build_pie_certificate:TypeError"].
+Definition SET_ALG := (ES ++ "_set_attribute_on_managed_object:AttributeError(cryptographic_algorithm)")%string.
+Definition SET_LEN := (ES ++ "_set_attribute_on_managed_object:AttributeError(cryptographic_length)")%string.
+
 Definition op_sites (op : string) : list string :=
   if String.eqb op "REGISTER" then
-    ["pie/factory.py:_build_pie_key:TypeError"; "pie/objects.py:validate:ValueError";
-     "pie/factory.py:_build_cryptographic_parameters:AttributeError(block_cipher_mode)";
-     "pie/factory.py:_build_pie_certificate:TypeError";
-     ES ++ "_set_attribute_on_managed_object:AttributeError(cryptographic_algorithm)";
-     ES ++ "_set_attribute_on_managed_object:AttributeError(cryptographic_length)"]%string
-  else if String.eqb op "DERIVE_KEY" then [ES ++ "_process_derive_key:AttributeError(hashing_algorithm)"]%string
+    (if defect "register-convert" then register_convert_sites else [])
+    ++ active "set-attribute-missing-field" SET_ALG ++ active "set-attribute-missing-field" SET_LEN
+  else if String.eqb op "DERIVE_KEY" then
+    active "derive-no-parameters" (ES ++ "_process_derive_key:AttributeError(hashing_algorithm)")%string
   else if String.eqb op "LOCATE" then
-    [PS ++ "is_attribute_applicable_to_object_type:AttributeError(applies_to_object_types)";
-     ES ++ "_get_attribute_from_managed_object:AttributeError(cryptographic_algorithm)";
-     ES ++ "_get_attribute_from_managed_object:AttributeError(cryptographic_length)"]%string
+    pol "is_attribute_applicable_to_object_type"
+    ++ active "get-attribute-missing-field" (ES ++ "_get_attribute_from_managed_object:AttributeError(cryptographic_algorithm)")%string
+    ++ active "get-attribute-missing-field" (ES ++ "_get_attribute_from_managed_object:AttributeError(cryptographic_length)")%string
   else if String.eqb op "GET" then
-    [ES ++ "_process_get:AttributeError(block_cipher_mode)"; ES ++ "_process_get:AttributeError(key_block)"]%string
-  else if String.eqb op "GET_ATTRIBUTES" then ["core/messages/payloads/get_attributes.py:write:InvalidField"]
-  else if String.eqb op "MAC" then [ES ++ "_process_mac:AttributeError(state)"]%string
-  else if String.eqb op "SET_ATTRIBUTE" then [PS ++ "is_attribute_multivalued:AttributeError(multiple_instances_permitted)"]%string
+    active "get-wrap-no-parameters" (ES ++ "_process_get:AttributeError(block_cipher_mode)")%string
+    ++ active "get-wrap-non-key" (ES ++ "_process_get:AttributeError(key_block)")%string
+  else if String.eqb op "GET_ATTRIBUTES" then
+    active "get-attributes-empty-response" "core/messages/payloads/get_attributes.py:write:InvalidField"
+  else if String.eqb op "MAC" then active "mac-stateless-object" (ES ++ "_process_mac:AttributeError(state)")%string
+  else if String.eqb op "SET_ATTRIBUTE" then pol "is_attribute_multivalued"
   else if String.eqb op "MODIFY_ATTRIBUTE" then
-    [PS ++ "is_attribute_modifiable_by_client:AttributeError(modifiable_by_client)"; ES ++ "_process_modify_attribute:TypeError"]%string
+    pol "is_attribute_modifiable_by_client"
+    ++ active "modify-unsupported-multivalued" (ES ++ "_process_modify_attribute:TypeError")%string
   else if String.eqb op "DELETE_ATTRIBUTE" then
-    [PS ++ "is_attribute_applicable_to_object_type:AttributeError(applies_to_object_types)";
-     ES ++ "_delete_attribute_from_managed_object:AttributeError(value)"]%string
+    pol "is_attribute_applicable_to_object_type"
+    ++ active "delete-current-name" (ES ++ "_delete_attribute_from_managed_object:AttributeError(value)")%string
   else [].
 
 (* "every Crash of o is at a site satisfying P" *)
@@ -70,17 +82,20 @@ Lemma ok_rd_present : forall (P : string -> Prop) func cls f k,
 Proof. intros. unfold rd. rewrite H. auto. Qed.
 
 Lemma ok_rd_or : forall (P : string -> Prop) n func cls f k k',
-  (has_field cls f = false -> P (attr_err ENGINE func f)) -> sites_ok P k -> sites_ok P k' -> sites_ok P (rd_or n func cls f k k').
-Proof. intros. unfold rd_or. destruct (has_field cls f); auto. destruct (defect n); simpl; auto. Qed.
+  (has_field cls f = false -> defect n = true -> P (attr_err ENGINE func f)) -> sites_ok P k -> sites_ok P k' ->
+  sites_ok P (rd_or n func cls f k k').
+Proof. intros. unfold rd_or. destruct (has_field cls f); auto. destruct (defect n) eqn:E; simpl; auto. Qed.
 
 Lemma ok_rd_get1 : forall (P : string -> Prop) cls f k k',
-  (has_field cls f = false -> P (attr_err ENGINE "_get_attribute_from_managed_object" f)) ->
+  (has_field cls f = false ->
+   defect "get-attribute-missing-field" || negb (String.eqb f "cryptographic_algorithm" || String.eqb f "cryptographic_length") = true ->
+   P (attr_err ENGINE "_get_attribute_from_managed_object" f)) ->
   sites_ok P k -> sites_ok P k' -> sites_ok P (rd_get1 cls f k k').
 Proof. intros. unfold rd_get1. destruct (has_field cls f); auto.
-  destruct (defect "get-attribute-missing-field" || negb (String.eqb f "cryptographic_algorithm" || String.eqb f "cryptographic_length")); simpl; auto. Qed.
+  destruct (defect "get-attribute-missing-field" || negb (String.eqb f "cryptographic_algorithm" || String.eqb f "cryptographic_length")) eqn:E; simpl; auto. Qed.
 
-Lemma ok_unguarded : forall (P : string -> Prop) n site, P site -> sites_ok P (unguarded n site).
-Proof. intros. unfold unguarded. destruct (defect n); simpl; auto. Qed.
+Lemma ok_unguarded : forall (P : string -> Prop) n site, (defect n = true -> P site) -> sites_ok P (unguarded n site).
+Proof. intros. unfold unguarded. destruct (defect n) eqn:E; simpl; auto. Qed.
 
 Lemma ok_crypto : forall op cr k, crypto_observed cr -> sites_ok (allowed op cr) k -> sites_ok (allowed op cr) (crypto cr k).
 Proof. intros op cr k Hc Hk. unfold crypto. destruct cr; simpl; auto. - congruence. - right; reflexivity. Qed.
@@ -133,7 +148,12 @@ Lemma ok_with_obj : forall (P : string -> Prop) s u k, wf_store s -> (forall o, 
 Proof. intros. unfold with_obj. destruct (lookup s u) eqn:E; simpl; auto. apply H0. eapply lookup_wf; eauto. Qed.
 
 (* solving the terminal goals *)
-Ltac in_sites := first [ left; vm_compute; reflexivity | right; reflexivity ].
+(* a crash site is allowed: either the flag hypothesis that made it reachable is false on this tree, or the site is listed *)
+Ltac site_ok :=
+  first [ solve [ match goal with H : defect _ = true |- _ => vm_compute in H; discriminate H end ]
+        | solve [ match goal with H : (_ || _)%bool = true |- _ => vm_compute in H; discriminate H end ]
+        | left; vm_compute; reflexivity ].
+Ltac in_sites := first [ site_ok | right; reflexivity ].
 Ltac absurd_field := let H := fresh in intro H; vm_compute in H; discriminate H.
 
 (* ------------------------------------------------------------------ _process_template_attribute *)
@@ -192,10 +212,9 @@ Proof.
          end; try discriminate; inversion H; subst; tauto.
 Qed.
 
-Definition SET_ALG := (ES ++ "_set_attribute_on_managed_object:AttributeError(cryptographic_algorithm)")%string.
-Definition SET_LEN := (ES ++ "_set_attribute_on_managed_object:AttributeError(cryptographic_length)")%string.
 (* writing attribute n on an object of class cls can only fail internally for a certificate's algorithm / length *)
 Definition Pset (cls n site : string) : Prop :=
+  defect "set-attribute-missing-field" = true /\
   cls = "X509Certificate" /\ ((n = "Cryptographic Algorithm" /\ site = SET_ALG) \/ (n = "Cryptographic Length" /\ site = SET_LEN)).
 
 Ltac field_compute :=
@@ -240,7 +259,7 @@ Proof.
     name_literal n Ef; try discriminate; inversion Ef; subst f; vm_compute in Hr; inversion Hr; subst r; clear Hr Ef;
       pair_split Hp; rewrite Ho in Happ; try (vm_compute in Happ; discriminate Happ);
       rewrite Hc; unfold rd_or; field_compute; cbv iota;
-      try (destruct (defect "set-attribute-missing-field"); simpl; auto; unfold Pset; split; auto; fail);
+      try (destruct (defect "set-attribute-missing-field") eqn:Hd; simpl; auto; unfold Pset; split; auto; fail);
       match goal with |- context[if ?c then Done else Go] => destruct c end; simpl; auto.
 Qed.
 
@@ -264,7 +283,7 @@ Lemma set_attributes_not_cert : forall op cr d t, pair_ok (t_otype t) (t_cls t) 
   t_cls t <> "X509Certificate" -> sites_ok (allowed op cr) (set_attributes t d).
 Proof.
   intros. eapply sites_ok_impl; [|apply set_attributes_sites; auto].
-  intros s [n [Hc _]]. contradiction.
+  intros s [n [_ [Hc _]]]. contradiction.
 Qed.
 
 Ltac crunch :=
@@ -297,10 +316,6 @@ Proof.
 Qed.
 
 (* ---- Register *)
-Definition register_convert_sites : list string :=
-  ["pie/factory.py:_build_pie_key:TypeError"; "pie/objects.py:validate:ValueError";
-   "pie/factory.py:_build_cryptographic_parameters:AttributeError(block_cipher_mode)";
-   "pie/factory.py:_build_pie_certificate:TypeError"].
 
 Lemma assoc_key_in : forall k l r, assoc_key k l = Some r -> In r (map snd l).
 Proof.
@@ -330,11 +345,14 @@ Proof.
   - apply assoc_z_in in H. apply T3 in H. exact H.
 Qed.
 
-Lemma mem_register : forall site, mem_s site register_convert_sites = true -> mem_s site (op_sites "REGISTER") = true.
+Lemma mem_register : forall site, defect "register-convert" = true ->
+  mem_s site register_convert_sites = true -> mem_s site (op_sites "REGISTER") = true.
 Proof.
-  intros site H.
-  replace (op_sites "REGISTER") with (register_convert_sites ++ [SET_ALG; SET_LEN]) by (vm_compute; reflexivity).
-  unfold mem_s in *. rewrite existsb_app. rewrite H. reflexivity.
+  intros site Hd H.
+  replace (op_sites "REGISTER") with
+    ((if defect "register-convert" then register_convert_sites else [])
+     ++ active "set-attribute-missing-field" SET_ALG ++ active "set-attribute-missing-field" SET_LEN) by reflexivity.
+  rewrite Hd. unfold mem_s in *. rewrite existsb_app. rewrite H. reflexivity.
 Qed.
 
 Lemma class_of_pair : forall otype cls, class_of otype = Some cls -> pair_ok otype cls.
@@ -347,11 +365,11 @@ Proof.
   destruct sec as [sec|]; simpl; auto. simpl in Hwf. destruct Hwf as [Hc Hcl].
   pose proof (proc_template_ok v ta) as Hd. destruct (proc_template v ta) as [d|o]; [|subst; simpl; auto].
   destruct (convert sec) as [[site|]|] eqn:Ec; try contradiction.
-  - apply ok_unguarded. left. apply mem_register. eapply convert_site_listed; eauto.
+  - apply ok_unguarded. intro Hdf. left. apply mem_register; auto. eapply convert_site_listed; eauto.
   - destruct (class_of (sec_otype sec)) as [cls|] eqn:Ecl; try contradiction.
     assert (Hs : forall t, t_cls t = cls -> t_otype t = sec_otype sec -> sites_ok (allowed "REGISTER" cr) (set_attributes t d)).
     { intros t H1 H2. eapply sites_ok_impl; [|apply set_attributes_sites; auto].
-      - intros s0 [n [_ [[_ Hs0]|[_ Hs0]]]]; subst s0; left; vm_compute; reflexivity.
+      - intros s0 [n [Hdf [_ [[_ Hs0]|[_ Hs0]]]]]; subst s0; site_ok.
       - unfold pair_ok. rewrite H1, H2. auto. }
     destruct sec; apply Hs; reflexivity.
 Qed.
@@ -378,9 +396,10 @@ Proof.
 Qed.
 
 (* ---- MAC *)
-Ltac finish := simpl; auto; try (apply ok_crypto; simpl; auto); try (left; vm_compute; reflexivity).
+Ltac finish := simpl; auto; try (apply ok_crypto; simpl; auto); try site_ok.
 Ltac crunch2 :=
   repeat match goal with
+         | |- sites_ok _ (if defect ?n then _ else _) => let Hd := fresh "Hd" in destruct (defect n) eqn:Hd
          | |- sites_ok _ (match (match ?y with _ => _ end) with _ => _ end) => destruct y
          | |- sites_ok _ (match (if ?y then _ else _) with _ => _ end) => destruct y
          | |- sites_ok _ (match ?x with _ => _ end) => destruct x
@@ -436,7 +455,8 @@ Proof.
   destruct w as [w|];
     [ destruct (w_eki w) as [[ku kp]|];
       [ destruct (lookup s ku) as [| |k] eqn:Ek; [ | | pose proof (lookup_wf _ _ _ Hs Ek) as Hk; otype_cases k Hk ] | ] | ];
-    otype_cases o Ho; compute_fields; compute_eqb; crunch2.
+    otype_cases o Ho; compute_fields; compute_eqb;
+    destruct (defect "get-wrap-non-key") eqn:Hdk; cbv [negb andb]; cbv iota; crunch2.
 Qed.
 
 (* ---- GetAttributes / GetAttributeList *)
@@ -490,6 +510,7 @@ Qed.
 
 Ltac walk :=
   repeat match goal with
+         | |- sites_ok _ (if defect ?n then _ else _) => let Hd := fresh "Hd" in destruct (defect n) eqn:Hd
          | |- sites_ok _ (match (match ?y with _ => _ end) with _ => _ end) => destruct y
          | |- sites_ok _ (match (if ?y then _ else _) with _ => _ end) => destruct y
          | |- sites_ok _ (match ?x with _ => _ end) => destruct x
@@ -497,7 +518,7 @@ Ltac walk :=
          | |- sites_ok _ (crypto _ _) => apply ok_crypto; [assumption|]
          | |- sites_ok _ (set_attributes _ _) =>
              apply set_attributes_not_cert; [reflexivity | first [assumption | apply filter_known; assumption] | discriminate]
-         | |- sites_ok _ (Crash _) => simpl; left; vm_compute; reflexivity
+         | |- sites_ok _ (Crash _) => simpl; site_ok
          | |- sites_ok _ Done => exact I
          | |- sites_ok _ Go => exact I
          end.
@@ -534,20 +555,22 @@ Proof.
   - destruct (find_rule (a_name a)) as [r|] eqn:Hr.
     + unfold q_applicable. rewrite (q_some _ _ _ _ _ Hr).
       destruct (mem_z (so_otype o) (ar_object_types r)) eqn:Happ; cbn [negb]; cbv iota; [|exact I].
-      destruct (attr_field (a_name a)) as [f|] eqn:Ef; [|auto].
+      destruct (attr_field (a_name a)) as [f|] eqn:Ef; [|exact I].
       apply ok_rd_get1.
-      * intros Hf. destruct (get1_field_ok _ _ _ _ Ho Hr Happ Ef Hf); subst f; left; vm_compute; reflexivity.
+      * intros Hf Hd. destruct (get1_field_ok _ _ _ _ Ho Hr Happ Ef Hf); subst f;
+          (destruct (defect "get-attribute-missing-field") eqn:Hd'; [site_ok | vm_compute in Hd; discriminate Hd]).
       * destruct (String.eqb (a_name a) "Initial Date"). { destruct (2 <=? dates)%nat; simpl; auto. }
         destruct (loc_match o a); simpl; auto.
-      * auto.
+      * exact I.
     + unfold q_applicable, q. rewrite Hr.
       destruct (assoc_s "is_attribute_applicable_to_object_type" policy_unknown) as [[site|]|] eqn:Ep; cbn [negb]; cbv iota; try exact I.
-      vm_compute in Ep. first [ discriminate Ep | inversion Ep; subst site; simpl; left; vm_compute; reflexivity ].
+      vm_compute in Ep. first [ discriminate Ep | inversion Ep; subst site; simpl; site_ok ].
 Qed.
 
-Lemma ok_h_locate : forall cr s l, wf_store s -> sites_ok (allowed "LOCATE" cr) (h_locate s l).
+Lemma ok_h_locate : forall cr v s l, wf_store s -> sites_ok (allowed "LOCATE" cr) (h_locate v s l).
 Proof.
-  intros cr s l Hs. unfold h_locate. destruct l as [|a l]; [exact I|].
+  intros cr v s l Hs. unfold h_locate. destruct l as [|a l]; [exact I|].
+  destruct (existsb (fun a0 => negb (q_supported v (a_name a0))) (a :: l)); [exact I|].
   induction s as [|o s IH]; cbn [loc_store]. - exact I.
   - inversion Hs; subst. destruct (so_allowed o); auto.
     pose proof (ok_loc_object cr o (a :: l) 0%nat H1) as Ho.
@@ -568,7 +591,7 @@ Proof.
   - unfold q_applicable, q_deletable, q_multivalued. rewrite !(q_some _ _ _ _ _ Hr).
     otype_cases o Ho; unfold rd, unguarded; field_compute; cbv iota; walk.
   - unfold q_applicable, q_deletable, q_multivalued, q. rewrite Hr. policy_compute.
-    otype_cases o Ho; unfold rd, unguarded; field_compute; cbv iota; simpl; walk; try exact I; try (left; vm_compute; reflexivity).
+    otype_cases o Ho; unfold rd, unguarded; field_compute; cbv iota; simpl; walk; try exact I; try site_ok.
 Qed.
 
 Lemma ok_h_delete1 : forall cr v s u n i, wf_store s -> sites_ok (allowed "DELETE_ATTRIBUTE" cr) (h_delete1 v s u n i).
@@ -646,7 +669,7 @@ Proof.
     pose proof (set_attribute_modifiable "SET_ATTRIBUTE" cr (stored_target o) (a_name a) r [a] Ho Hr Hm) as H1.
     destruct (set_attribute (stored_target o) (a_name a) [a]); simpl; auto.
   - unfold q_multivalued, q_modifiable, q. rewrite Hr. policy_compute.
-    first [exact I | simpl; left; vm_compute; reflexivity].
+    first [exact I | simpl; site_ok].
 Qed.
 
 Lemma ok_h_modify1 : forall cr v s u a, supported_version v = true -> wf_store s ->
@@ -663,15 +686,15 @@ Proof.
         -- match goal with |- sites_ok _ (if ?c then _ else _) => destruct c eqn:Eidx end; [|exact I].
            rewrite (attrs_listed_list v o _ n Hv Ho El). apply andb_true_iff in Eidx. destruct Eidx as [_ E2]. rewrite E2. exact I.
         -- match goal with |- sites_ok _ (if ?c then _ else _) => destruct c end; [exact I|].
-           apply ok_unguarded. left; vm_compute; reflexivity.
+           apply ok_unguarded. intro Hdf. site_ok.
       * match goal with |- sites_ok _ (if ?c then _ else _) => destruct c end; [exact I|].
-        apply ok_unguarded. left; vm_compute; reflexivity.
+        apply ok_unguarded. intro Hdf. site_ok.
     + destruct (a_index a); [exact I|].
       destruct (attrs_listed_total v o (a_name a)) as [k Hk]. rewrite Hk. destruct k; [exact I|].
       pose proof (set_attribute_modifiable "MODIFY_ATTRIBUTE" cr (stored_target o) (a_name a) r [a] Ho Hr Hm) as H1.
       destruct (set_attribute (stored_target o) (a_name a) [a]); simpl; auto.
   - unfold q_multivalued, q_modifiable, q. rewrite Hr. policy_compute.
-    first [exact I | simpl; left; vm_compute; reflexivity].
+    first [exact I | simpl; site_ok].
 Qed.
 
 Lemma ok_h_modify2 : forall cr s u a c, wf_store s -> sites_ok (allowed "MODIFY_ATTRIBUTE" cr) (h_modify2 s u a c).
@@ -694,7 +717,7 @@ Proof.
         unfold rd_get1. rewrite (modifiable_field_present _ _ _ _ _ Hr Hm Ef Ho).
         destruct (set_attribute (stored_target o) (a_name a) [a]); simpl; auto.
   - unfold q_multivalued, q_modifiable, q. rewrite Hr. policy_compute.
-    first [exact I | simpl; left; vm_compute; reflexivity].
+    first [exact I | simpl; site_ok].
 Qed.
 
 (* ------------------------------------------------------------------ _process_operation *)
@@ -806,9 +829,9 @@ Proof.
   destruct (op_sites (op_of it)); [discriminate K | discriminate Hcl].
 Qed.
 
-Lemma clean_ops_are : forall it, clean_op it = true <->
+Lemma clean_ops_are : forall it,
   In (op_of it) ["CREATE"; "CREATE_KEY_PAIR"; "GET_ATTRIBUTE_LIST"; "ACTIVATE"; "REVOKE"; "DESTROY"; "QUERY"; "DISCOVER_VERSIONS";
-                 "ENCRYPT"; "DECRYPT"; "SIGN"; "SIGNATURE_VERIFY"].
+                 "ENCRYPT"; "DECRYPT"; "SIGN"; "SIGNATURE_VERIFY"] -> clean_op it = true.
 Proof. destruct it; vm_compute; intuition; try discriminate. Qed.
 
 (* the model never reaches the crypto engine without saying so: a run whose oracle says "not called" crashes at the sentinel only *)
@@ -818,4 +841,31 @@ Proof.
   intros. unfold reaches_crypto. destruct (step v s CNotCalled it) as [| |site]; split; intro H; try discriminate.
   - apply String.eqb_eq in H. subst. reflexivity.
   - inversion H. apply String.eqb_refl.
+Qed.
+
+(* ------------------------------------------------------------------ the tree as it is now (after the fix: commits)
+   These two statements are about the CURRENT values of the generated tables (they are proved by computing `op_sites`):
+   re-introducing one of the repaired defects breaks them (as well as the grid). *)
+Lemma op_sites_empty_now : forall it, op_of it <> "GET_ATTRIBUTES" -> op_sites (op_of it) = [].
+Proof. destruct it; intro H; try (vm_compute; reflexivity); exfalso; apply H; reflexivity. Qed.
+
+Theorem no_crash_but_get_attributes : forall v s cr it,
+  supported_version v = true -> wf_store s -> wf_item it -> crypto_total cr -> op_of it <> "GET_ATTRIBUTES" ->
+  step_crash v s cr it = false.
+Proof.
+  intros v s cr it Hv Hs Hw Hc Hop. unfold step_crash.
+  destruct (step v s cr it) as [| |site] eqn:E; auto.
+  pose proof (crash_sites v s cr it site Hv Hs Hw Hc E) as K. rewrite (op_sites_empty_now it Hop) in K. discriminate K.
+Qed.
+
+(* GetAttributes: only the KMIP 2.0 response without any attribute is affected *)
+Theorem no_crash_get_attributes_1x : forall v s cr u names,
+  wf_store s -> ver_ge v (2,0) = false -> step_crash v s cr (IGetAttributes u names) = false.
+Proof.
+  intros v s cr u names Hs Hv. unfold step_crash, step, step_raw. cbn [min_version]. destruct (negb (ver_ge v (1,0))); [reflexivity|].
+  assert (K : sites_ok (fun _ => False) (h_get_attributes v s u names false)).
+  { unfold h_get_attributes. apply ok_with_obj; auto. intros o Ho.
+    destruct (get_attrs_count_total v o (match names with [] => all_attribute_names | _ => names end)) as [k Hk]. rewrite Hk.
+    rewrite Hv. otype_cases o Ho; rd_present; simpl; auto. }
+  destruct (h_get_attributes v s u names false); simpl in *; auto. contradiction.
 Qed.
